@@ -133,6 +133,23 @@ PLANS = {
         ],
         trusted_base=['pyvc (this repository)', 'z3 5.1'],
     ),
+    'C06': dict(
+        specs=[], contracts=[], targets=[], bounded=['bounded.c06_solvers.run'], level='exploration',
+        native_per_fn={'quick': 0, 'thorough': 0},
+        rule='see coverage.bounded[0].rule',
+        assumptions=[
+            "bounded stand-in only: the property is about the meaning of a translation into an external solver; the "
+            "run-time contract compares z3wrapper.solve with z3 on an OWN guard-correct encoding (nat binders guarded, "
+            "truncated subtraction, x / 0 = 0, extensional function equality, of_nat = ToReal) and replays quantifier-"
+            "free counter-models by exact evaluation; goals accepted by the SymPy step are evaluated exactly (Fraction, "
+            "x / 0 = 0) on a grid",
+            "trusted: z3 (both sides of the comparison use it), the own encoding and evaluator; transcendental "
+            "functions, sqrt, log, real powers and poles of tan/cot/sec/csc in the SymPy step are NOT exercised",
+            "solver budget: z3 timeout 4 s for the wrapper, 8 s for the oracle; 'unknown' on the oracle side is counted "
+            "as undecided, never as a violation",
+        ],
+        trusted_base=['z3 5.1', 'own encoding / evaluator'],
+    ),
     'C08': dict(
         specs=[], contracts=[], targets=[], bounded=['bounded.c08_infer.run'], level='exploration',
         native_per_fn={'quick': 0, 'thorough': 0},
